@@ -12,6 +12,8 @@ structure St where
   dp : Dataplane := .ipt
   names : List Bytes := []
   chains : List Chain := []
+  maps : MapsState := {}
+  nftChains : List Chain := []
 
 def hexVal (c : Char) : Option Nat :=
   if '0' ≤ c ∧ c ≤ '9' then some (c.toNat - 48)
@@ -73,6 +75,27 @@ def step (st : St) (line : String) : St × String :=
     match parseNames names with
     | some ns => let (f, t) := dispatchMappings ns; (st, showMap f ++ " | " ++ showMap t)
     | none => (st, "bad-op")
+  | ["nft-new"] =>
+    ({ st with maps := {}, nftChains := (workloadDispatchChains .nft false []).getD [] }, "ok")
+  | ["nft-set", names] =>
+    match parseNames names with
+    | none => (st, "bad-op")
+    | some ns =>
+      match workloadDispatchChains .nft false ns with
+      | none => (st, "panic")
+      | some cs =>
+        let m := st.maps.setWorkloads ns
+        let dump (l : List Member) : String :=
+          ",".intercalate ((l.map fun kv => s!"{escBytes kv.1}=goto {kv.2}").mergeSort (fun a b => decide (a ≤ b)))
+        ({ st with maps := m, nftChains := cs }, dump m.fromWl.dataplane ++ " | " ++ dump m.toWl.dataplane)
+  | ["nft-probe", i] =>
+    match parseName i with
+    | none => (st, "bad-op")
+    | some i =>
+      let pkt : Packet := { inIface := i, outIface := i }
+      let f := evalChain st.maps.env st.nftChains pkt 8 chainFromWl 0
+      let t := evalChain st.maps.env st.nftChains pkt 8 chainToWl 0
+      (st, s!"from={showResult f} to={showResult t}")
   | ["probe", chain, i, o] =>
     match parseName i, parseName o with
     | some i, some o =>
